@@ -63,6 +63,33 @@ Proof.
   rewrite !replay_app. reflexivity.
 Qed.
 
+
+Lemma emit_ne_jlog n u : jlog (emit_ne n u) = rev (ne u) ++ jlog n.
+Proof. unfold emit_ne, ne. destruct (u_ops u); reflexivity. Qed.
+Lemma fold_emit_ne_jlog (f : block -> wunit) L : forall n,
+  jlog (fold_left (fun n b => emit_ne n (f b)) L n) = rev (concat (map (fun b => ne (f b)) L)) ++ jlog n.
+Proof.
+  induction L as [|b L IH]; intros n; simpl; auto.
+  rewrite IH, emit_ne_jlog, rev_app_distr, <- app_assoc. reflexivity.
+Qed.
+Lemma fold_tell_jlog L : forall n, jlog (fold_left (fun n t => tell n (EvMemPoolPut t)) L n) = jlog n.
+Proof. induction L as [|t L IH]; intros n; simpl; auto. rewrite IH. reflexivity. Qed.
+Lemma swap_chain_jlog n m top news olds :
+  jlog (swap_chain n m top news olds false) = rev (swap_units m top news olds) ++ jlog n.
+Proof.
+  unfold swap_chain, swap_units, swap_mid. simpl jlog.
+  rewrite fold_tell_jlog, emit_ne_jlog, fold_emit_ne_jlog, emit_ne_jlog. simpl jlog.
+  rewrite !rev_app_distr. simpl. rewrite !rev_app_distr. rewrite <- !app_assoc. simpl. reflexivity.
+Qed.
+Lemma rollforward_reco_jlog L : forall n n4 ok, rollforward_reco n L = (n4, ok) -> jlog n4 = jlog n.
+Proof.
+  induction L as [|b L IH]; intros n n4 ok H; simpl in H.
+  - inversion H; subst. reflexivity.
+  - unfold execute_block_reco in H. destruct (has_state_marker (dur n) (root b)).
+    + rewrite (IH _ _ _ H). reflexivity.
+    + inversion H; subst. reflexivity.
+Qed.
+
 Definition rt_key (k : dkey) : Prop := match k with KReceipts _ _ | KTx _ => True | _ => False end.
 
 Lemma ne_ops u o : In o (all_ops (ne u)) -> In o (u_ops u).
@@ -209,6 +236,45 @@ Qed.
 Lemma end_root_snoc L : forall r x, end_root r (L ++ [x]) = root x.
 Proof. induction L as [|b L IH]; intros r x; simpl; auto. Qed.
 
+
+
+(** re-applying a write sequence heals every store that agrees with the original one outside the
+    keys the sequence writes *)
+Lemma replay_agree c d us : (forall k, lookup_ops (all_ops us) k = None -> c k = d k) ->
+  forall k, replay c us k = replay d us k.
+Proof.
+  intros H k. rewrite !replay_lookup. destruct (lookup_ops (all_ops us) k) eqn:E; auto.
+Qed.
+
+Definition su_key (k : dkey) : Prop := match k with KBlock _ | KStateMarker _ => False | _ => True end.
+Lemma swap_units_keys m top news olds o : In o (all_ops (swap_units m top news olds)) -> su_key (fst o).
+Proof.
+  unfold swap_units. rewrite all_ops_app. intros H. apply in_app_or in H. destruct H as [H|H].
+  - change (marker_write_unit m :: swap_mid news olds) with ([marker_write_unit m] ++ swap_mid news olds) in H.
+    rewrite all_ops_app in H. apply in_app_or in H. destruct H as [H|H].
+    + unfold all_ops in H. simpl in H. destruct H as [<-|[]]. simpl. exact I.
+    + apply swap_mid_keys in H. destruct (fst o); simpl in *; auto.
+  - unfold all_ops in H. cbn [map concat u_ops heights_unit marker_delete_unit] in H. rewrite app_nil_r in H.
+    apply in_app_or in H. destruct H as [H|H].
+    + apply in_app_or in H. destruct H as [H|H].
+      * apply in_map_iff in H. destruct H as (b & <- & _). simpl. exact I.
+      * destruct H as [<-|[]]. simpl. exact I.
+    + destruct H as [<-|[]]. simpl. exact I.
+Qed.
+Lemma swap_units_lookup_none m top news olds k : ~ su_key k -> lookup_ops (all_ops (swap_units m top news olds)) k = None.
+Proof.
+  intros H. apply lookup_ops_none. intros o Ho E. apply swap_units_keys in Ho. rewrite E in Ho. contradiction.
+Qed.
+
+
+Lemma lookup_ops_in_some ops k v : In (k, v) ops -> lookup_ops ops k <> None.
+Proof.
+  induction ops as [|o l IH]; simpl; [contradiction|]. intros [->|H].
+  - destruct (lookup_ops l k); [discriminate|]. simpl. rewrite dkey_eqb_refl. discriminate.
+  - destruct (lookup_ops l k) eqn:E; [discriminate|]. exfalso. apply (IH H). reflexivity.
+Qed.
+Lemma lookup_ops_some_key ops k v : lookup_ops ops k = Some v -> exists v', In (k, v') ops.
+Proof. intros H. exists v. apply lookup_ops_some_in. exact H. Qed.
 
 (** ** RecoverChainMapping *)
 Definition hop (b : block) : op := (KHeight (no b), Some (VHash (hash_field b))).
@@ -450,6 +516,87 @@ Proof.
   exact (inv_frame2 apply spent U g nF r IF A1 A2 A3 A4 A5 A6 A7 A8).
 Qed.
 
+(** the tail of Recover on ANY store that agrees with the store before the swap on every key the
+    swap units do not write (whatever garbage the keys they do write hold) *)
+Lemma recover_tail_gen n1 :
+  best n1 = best n -> orphans n1 = [] ->
+  (forall k, lookup_ops (all_ops SU) k = None -> dur n1 k = dur n2 k) ->
+  exists r, recover_tail true n1 m = StartOk r /\ (forall k, dur r k = dur nF k) /\ best r = top /\ Inv r /\
+            jlog r = rev SU ++ jlog n1.
+Proof.
+  intros Hb Ho Hagree.
+  assert (Hnr : forall k, ~ su_key k -> dur n1 k = dur n2 k).
+  { intros k Hk. apply Hagree. apply swap_units_lookup_none. exact Hk. }
+  destruct reco_facts as (Gst & Glt & Gne & Ghd & Glink & Gstored & Eolds & IF & BF & Ff & Hmk).
+  assert (KB : forall id, dur n1 (KBlock id) = dur n (KBlock id)).
+  { intros id. rewrite Hnr by (simpl; auto). apply Ff; intros; discriminate. }
+  assert (GBc : forall id, get_block (dur n1) id = get_block (dur n) id) by (intros; apply get_block_ext; auto).
+  pose proof (i_best _ _ _ _ _ I) as Hob. pose proof (inv_main_stored apply spent U g n _ _ I Hob) as Hobs.
+  pose proof (inv_main_stored apply spent U g n _ _ I Gst) as Hsts.
+  unfold recover_tail. simpl dur. simpl best. rewrite Hb. simpl m_best. rewrite N.eqb_refl. simpl negb. cbv iota.
+  simpl m_top. simpl m_start. rewrite !GBc, Htop, Hsts, Hobs.
+  assert (E1 : no top <=? no (best n) = false) by (apply N.leb_gt; lia).
+  assert (E2 : no (best n) <=? no st = false) by (apply N.leb_gt; lia).
+  assert (E3 : no top <=? no st = false) by (apply N.leb_gt; lia).
+  rewrite E1, E2, E3. simpl orb. cbv iota.
+  rewrite !(gather_down_ext _ (dur n) (dur n1)) by exact KB.
+  (* old blocks *)
+  assert (Go : gather_down (S (N.to_nat (no (best n)))) (dur n) (no st) (best n) = Some olds).
+  { rewrite Eolds. set (c := N.to_nat (no (best n) - no st)).
+    assert (Ec : no (best n) = no st + N.of_nat c) by (unfold c; lia).
+    rewrite Ec at 1. apply (gd_main n (no st) I c); [lia|]. rewrite <- Ec. exact Hob. }
+  rewrite Go.
+  (* new blocks *)
+  destruct news as [|tp news'] eqn:En; [contradiction|]. simpl in Ghd. subst tp.
+  assert (Gn : gather_down (S (N.to_nat (no top))) (dur n) (no st) top = Some (top :: news')).
+  { simpl in Glink.
+    assert (Hd : dlinked top (rev (rev news') ++ [st])) by (eapply linked_dlinked; eauto).
+    rewrite rev_involutive in Hd.
+    rewrite (gather_down_path (news' ++ [st]) (dur n) top st Hd).
+    - change (top :: news' ++ [st]) with ((top :: news') ++ [st]). rewrite removelast_last. reflexivity.
+    - apply last_last.
+    - intros y Hy. apply in_app_or in Hy. destruct Hy as [Hy|[<-|[]]]; auto. apply Gstored. right. exact Hy.
+    - change (top :: news' ++ [st]) with ((top :: news') ++ [st]). rewrite removelast_last.
+      intros c Hc'. eapply linked_no_gt; [exact Glink|]. apply in_or_app.
+      destruct Hc' as [<-|Hc']; [right; left; reflexivity|left; rewrite <- in_rev; exact Hc']. }
+  rewrite Gn.
+  (* rollforward by markers *)
+  destruct (rollforward_reco_ok (rev (top :: news')) (set_sdb (set_sdb n1 (root (best n))) (root st)))
+    as (n4 & R4 & D4 & B4 & O4 & S4).
+  { intros x Hx. simpl. unfold has_state_marker. rewrite Hnr by (simpl; auto). apply Hmk. exact Hx. }
+  rewrite R4. simpl in D4, B4, O4, S4.
+  assert (Eh : hash_field (best n4) =? hash_field top = false).
+  { apply N.eqb_neq. rewrite B4, Hb. intro E.
+    destruct (inv_stored_U apply spent U g n _ _ I Hobs) as (Uo & _).
+    assert (best n = top) by (apply U_inj; auto). rewrite H in Hlt. lia. }
+  rewrite Eh. eexists. split; [reflexivity|].
+  assert (Dr : forall k, dur (swap_chain n4 m top (top :: news') olds false) k = dur nF k).
+  { intros k. unfold nF. rewrite !swap_chain_dur. rewrite D4.
+    apply replay_agree. exact Hagree. }
+  split; [exact Dr|].
+  destruct (swap_chain_reads n4 m top (top :: news') olds st Glink) as (Rb & Rs & Ro & _).
+  split; [exact Rb|].
+  assert (JL : jlog (swap_chain n4 m top (top :: news') olds false) = rev SU ++ jlog n1).
+  { unfold SU. rewrite swap_chain_jlog. f_equal. rewrite (rollforward_reco_jlog _ _ _ _ R4). reflexivity. }
+  split; [|exact JL].
+  set (r := swap_chain n4 m top (top :: news') olds false) in *.
+  assert (A1 : best r = best nF) by (rewrite Rb; symmetry; exact BF).
+  assert (A2 : sdb_root r = sdb_root nF).
+  { rewrite Rs, S4. rewrite (i_sdb _ _ _ _ _ IF), BF. simpl. apply end_root_snoc. }
+  assert (A3 : forall o, In o (orphans r) -> U o) by (rewrite Ro, O4, Ho; contradiction).
+  assert (A4 : forall k, (forall r0, k <> KStateMarker r0) -> (forall i0 m0, k <> KReceipts i0 m0) ->
+                         (forall id, k <> KBlock id) -> dur r k = dur nF k) by (intros; apply Dr).
+  assert (A5 : forall id x, get_block (dur nF) id = Some x -> get_block (dur r) id = Some x).
+  { intros id x Hx. rewrite <- Hx. apply get_block_ext. apply Dr. }
+  assert (A6 : forall id x, dur r (KBlock id) = Some (VBlock x) -> U x /\ hash_field x = id).
+  { intros id x. rewrite Dr. apply (i_univ _ _ _ _ _ IF). }
+  assert (A7 : forall r0, has_state_marker (dur nF) r0 = true -> has_state_marker (dur r) r0 = true).
+  { intros r0. unfold has_state_marker. rewrite Dr. auto. }
+  assert (A8 : forall i0 j0, has_receipts (dur nF) i0 j0 = true -> has_receipts (dur r) i0 j0 = true).
+  { intros i0 j0. unfold has_receipts. rewrite Dr. auto. }
+  exact (inv_frame2 apply spent U g nF r IF A1 A2 A3 A4 A5 A6 A7 A8).
+Qed.
+
 Lemma firstn_swap_units j : (j <= length (swap_mid news olds))%nat ->
   firstn (Datatypes.S j) SU = marker_write_unit m :: firstn j (swap_mid news olds).
 Proof.
@@ -558,6 +705,464 @@ Lemma hop_lookup_other l k : (forall h, k <> KHeight h) -> lookup_ops (map hop l
 Proof.
   intros H. apply lookup_ops_none. intros o Ho E. apply in_map_iff in Ho. destruct Ho as (b & <- & _).
   simpl in E. eapply H; eauto.
+Qed.
+
+Lemma del_heights_in cnt : forall from k o, N.of_nat cnt <= from -> In (k, o) (del_heights cnt from) ->
+  exists h, k = KHeight h /\ from - N.of_nat cnt < h /\ h <= from.
+Proof.
+  induction cnt as [|cc IHc]; intros from k o Hle Hin; simpl in Hin; [contradiction|].
+  destruct Hin as [Hin|Hin].
+  - inversion Hin; subst. exists from. repeat split; lia.
+  - destruct (IHc (from - 1) k o ltac:(lia) Hin) as (h & -> & A & B). exists h. repeat split; lia.
+Qed.
+
+Lemma mdesc_range n0 : Inv n0 -> forall c1 lo x, lo + N.of_nat c1 <= no (best n0) + 1 ->
+  In x (mdesc (dur n0) lo c1) -> lo <= no x /\ no x < lo + N.of_nat c1.
+Proof.
+  intros I0. induction c1 as [|c1 IHc]; intros lo x Hle Hin; simpl in Hin; [contradiction|].
+  destruct (mainb (dur n0) (lo + N.of_nat c1)) as [mm|] eqn:Em; [|contradiction].
+  destruct Hin as [<-|Hin].
+  - rewrite (i_no _ _ _ _ _ I0 (lo + N.of_nat c1) mm ltac:(lia) Em). lia.
+  - destruct (IHc lo x ltac:(lia) Hin). lia.
+Qed.
+
+Lemma reco_nonmain : forall c mm, In c news -> no c <= no (best n) -> mainb (dur n) (no c) = Some mm ->
+  hash_field c <> hash_field mm.
+Proof.
+  assert (ACC : acc_ok (dur n) (no (best n)) top top [] []).
+  { unfold acc_ok. repeat split; simpl; auto; try contradiction.
+    all: try (intros (k & H1 & H2 & _); lia).
+    all: try (intros H; exfalso; apply H; reflexivity). }
+  destruct (gather_spec U U_inj (dur n) (no (best n)) (fun id x H => inv_stored_U apply spent U g n id x I H)
+              (fun k x H => inv_main_stored apply spent U g n k x I H) _ _ _ _ _ _ _ _ ACC G)
+    as (_ & _ & _ & _ & _ & _ & Gdiff & _). exact Gdiff.
+Qed.
+
+(** every height above the branch root up to the new tip is written by the swap units *)
+Lemma su_writes_heights h : no st < h -> h <= no top -> lookup_ops (all_ops SU) (KHeight h) <> None.
+Proof.
+  intros H1 H2. destruct reco_facts as (Gst & Glt & Gne & Ghd & Glink & _).
+  assert (Ftop : exists it, nth_error (rev news) it = Some top /\ length (rev news) = Datatypes.S it).
+  { destruct news as [|c news']; [contradiction|]. simpl in Ghd. subst c.
+    exists (length (rev news')). simpl. split.
+    - rewrite nth_error_app2 by lia. rewrite Nat.sub_diag. reflexivity.
+    - rewrite app_length. simpl. lia. }
+  destruct Ftop as (it & Hit & Hlen).
+  pose proof (linked_nth _ _ _ _ Glink Hit) as Htn.
+  set (i := N.to_nat (h - no st - 1)).
+  assert (Hi : (i < length (rev news))%nat) by (unfold i; lia).
+  destruct (nth_error (rev news) i) as [x|] eqn:Ex; [|apply nth_error_None in Ex; lia].
+  pose proof (linked_nth _ _ _ _ Glink Ex) as Hx.
+  apply (lookup_ops_in_some _ _ (Some (VHash (hash_field x)))).
+  unfold SU, swap_units. rewrite all_ops_app. apply in_or_app. right.
+  unfold all_ops. cbn [map concat u_ops heights_unit]. apply in_or_app. left. apply in_or_app. left.
+  apply in_map_iff. exists x. split; [|eapply nth_error_In; eauto].
+  f_equal. f_equal. unfold i in Hx. lia.
+Qed.
+Lemma su_writes_latest : lookup_ops (all_ops SU) KLatest <> None.
+Proof.
+  apply (lookup_ops_in_some _ _ (Some (VNo (no top)))).
+  unfold SU, swap_units. rewrite all_ops_app. apply in_or_app. right.
+  unfold all_ops. cbn [map concat u_ops heights_unit]. apply in_or_app. left. apply in_or_app. right. left. reflexivity.
+Qed.
+
+(** RecoverChainMapping from any loaded best block other than the old tip *)
+Lemma rcm_ok c b0 :
+  (forall k, lookup_ops (all_ops SU) k = None -> c k = dur n2 k) ->
+  hash_field b0 <> hash_field (best n) ->
+  exists n1, recover_chain_mapping (mkNode c b0 (root b0) [] [] 0 [] []) m = Some n1 /\
+             best n1 = best n /\ orphans n1 = [] /\
+             (forall k, lookup_ops (all_ops SU) k = None -> dur n1 k = dur n2 k) /\
+             dur n1 KMarker = c KMarker /\
+             dur n1 KLatest = Some (VNo (no (best n))) /\
+             dur n1 (KHeight (no (best n))) = Some (VHash (hash_field (best n))) /\
+             exists u, jlog n1 = [u] /\ dur n1 = apply_unit c u /\ u_kind u = UBulk.
+Proof.
+  intros R1 Hne.
+  destruct reco_facts as (Gst & Glt & Gne & Ghd & Glink & Gstored & Eolds & IF & BF & Ff & Hmk).
+  assert (KB : forall id, c (KBlock id) = dur n (KBlock id)).
+  { intros id. rewrite R1 by (apply swap_units_lookup_none; simpl; auto). apply Ff; intros; discriminate. }
+  pose proof (i_best _ _ _ _ _ I) as Hob. pose proof (inv_main_stored apply spent U g n _ _ I Hob) as Hobs.
+  unfold recover_chain_mapping. simpl best. simpl dur. simpl m_best.
+  assert (Eh : hash_field b0 =? hash_field (best n) = false) by (apply N.eqb_neq; exact Hne).
+  rewrite Eh. rewrite (get_block_ext (dur n) c) by apply KB. rewrite Hobs.
+  simpl m_start_no. rewrite (old_heights_ext _ (dur n) c) by apply KB.
+  set (cnt := N.to_nat (no (best n) - no st)).
+  assert (Ec : no (best n) = no st + N.of_nat cnt) by (unfold cnt; lia).
+  assert (OH : old_heights (Datatypes.S (N.to_nat (no (best n)))) (dur n) (no st) (best n) = Some (map hop olds)).
+  { rewrite Eolds. fold cnt. rewrite Ec at 1. apply (old_heights_main n (no st) I cnt); [lia|]. rewrite <- Ec. exact Hob. }
+  rewrite OH. simpl m_top_no. simpl m_best_no.
+  eexists. split; [reflexivity|]. split; [reflexivity|]. split; [reflexivity|].
+  assert (Hu : forall k, lookup_ops (all_ops SU) k = None ->
+             lookup_ops (del_heights (N.to_nat (no top - no (best n))) (no top) ++ map hop olds ++ [(KLatest, Some (VNo (no (best n))))]) k = None).
+  { intros k Hk. destruct (lookup_ops (del_heights (N.to_nat (no top - no (best n))) (no top) ++ map hop olds ++ [(KLatest, Some (VNo (no (best n))))]) k) eqn:E; auto.
+    exfalso. apply lookup_ops_some_in in E. apply in_app_or in E. destruct E as [E|E].
+    - (* a deleted height *)
+      destruct (del_heights_in (N.to_nat (no top - no (best n))) (no top) k o ltac:(lia) E) as (h & -> & H1 & H2).
+      apply (su_writes_heights h); auto. lia.
+    - apply in_app_or in E. destruct E as [E|[E|[]]].
+      + apply in_map_iff in E. destruct E as (x & Ex & Hx). unfold hop in Ex. inversion Ex; subst k o.
+        rewrite Eolds in Hx.
+        fold cnt in Hx. destruct (mdesc_range n I cnt (no st + 1) x ltac:(lia) Hx) as (Hr1 & Hr2).
+        apply (su_writes_heights (no x)); auto; lia.
+      + inversion E as [[Ek Eo]]. rewrite <- Ek in Hk. apply su_writes_latest. exact Hk. }
+  split; [|split; [|split; [|split]]].
+  - intros k Hk. simpl. unfold apply_unit. rewrite apply_ops_lookup. cbn [u_ops]. rewrite (Hu k Hk). apply R1. exact Hk.
+  - simpl. unfold apply_unit. rewrite apply_ops_lookup. cbn [u_ops].
+    rewrite !lookup_ops_app. cbn [lookup_ops fst snd dkey_eqb].
+    rewrite hop_lookup_other, del_heights_other by (intros; discriminate). reflexivity.
+  - simpl. unfold apply_unit. rewrite apply_ops_lookup. cbn [u_ops].
+    rewrite !lookup_ops_app. cbn [lookup_ops fst snd dkey_eqb]. reflexivity.
+  - simpl. unfold apply_unit. rewrite apply_ops_lookup. cbn [u_ops].
+    rewrite !lookup_ops_app. cbn [lookup_ops fst snd dkey_eqb].
+    rewrite Eolds. fold cnt. rewrite (hop_mdesc_lookup n I cnt (no st + 1) (no (best n))) by lia.
+    assert (E1 : (no st + 1 <=? no (best n)) && (no (best n) <? no st + 1 + N.of_nat cnt) = true).
+    { apply andb_true_iff. split; [apply N.leb_le|apply N.ltb_lt]; lia. }
+    rewrite E1. rewrite (main_height n _ _ I Hob). reflexivity.
+  - eexists. split; [reflexivity|]. split; reflexivity.
+Qed.
+
+
+(** ** every store the swap / its recovery can leave behind is recoverable *)
+(** [Rec c]: [c] agrees with the store before the swap on every key the swap units do not write,
+    still holds the marker, and its tip pointer is loadable: Latest is the old height and the
+    height index there names the old tip or a block of the new branch, or Latest is the new
+    height and the height index there names the new tip. *)
+Definition Rec (c : store) : Prop :=
+  (forall k, lookup_ops (all_ops SU) k = None -> c k = dur n2 k) /\
+  c KMarker = Some (VMarker m) /\
+  ((c KLatest = Some (VNo (no (best n))) /\
+    (c (KHeight (no (best n))) = Some (VHash (hash_field (best n))) \/
+     exists nb, In nb news /\ no nb = no (best n) /\ c (KHeight (no (best n))) = Some (VHash (hash_field nb)))) \/
+   (c KLatest = Some (VNo (no top)) /\ c (KHeight (no top)) = Some (VHash (hash_field top)))).
+
+Theorem restart_rec c : Rec c ->
+  exists r, restart true c = Some (StartOk r) /\ Inv r /\ best r = top /\ (forall k, dur r k = dur nF k) /\
+            has_state_marker (dur r) (root (best r)) = true.
+Proof.
+  intros (R1 & R2 & R3).
+  destruct reco_facts as (Gst & Glt & Gne & Ghd & Glink & Gstored & Eolds & IF & BF & Ff & Hmk).
+  assert (KB : forall id, c (KBlock id) = dur n (KBlock id)).
+  { intros id. rewrite R1 by (apply swap_units_lookup_none; simpl; auto). apply Ff; intros; discriminate. }
+  assert (GBc : forall id, get_block c id = get_block (dur n) id) by (intros; apply get_block_ext; auto).
+  pose proof (i_best _ _ _ _ _ I) as Hob. pose proof (inv_main_stored apply spent U g n _ _ I Hob) as Hobs.
+  assert (RM : get_marker c = Some m) by (unfold get_marker; rewrite R2; reflexivity).
+  assert (Tail : forall n1, best n1 = best n -> orphans n1 = [] ->
+            (forall k, lookup_ops (all_ops SU) k = None -> dur n1 k = dur n2 k) ->
+            exists r, recover_tail true n1 m = StartOk r /\ Inv r /\ best r = top /\ (forall k, dur r k = dur nF k) /\
+                      has_state_marker (dur r) (root (best r)) = true).
+  { intros n1 Hb Ho Ha. destruct (recover_tail_gen n1 Hb Ho Ha) as (r & T1 & T2 & T3 & T4 & _).
+    exists r. split; [exact T1|]. split; [exact T4|]. split; [exact T3|]. split; [exact T2|].
+    eapply (i_state _ _ _ _ _ T4 (no (best r))); eauto. lia. apply (i_best _ _ _ _ _ T4). }
+  assert (ViaRcm : forall b0, get_block (dur n) (hash_field b0) = Some b0 -> hash_field b0 <> hash_field (best n) ->
+            forall L0, c KLatest = Some (VNo L0) -> c (KHeight L0) = Some (VHash (hash_field b0)) ->
+            exists r, restart true c = Some (StartOk r) /\ Inv r /\ best r = top /\ (forall k, dur r k = dur nF k) /\
+                      has_state_marker (dur r) (root (best r)) = true).
+  { intros b0 Sb0 Hne L0 HL HH.
+    unfold restart, get_latest. rewrite HL. unfold get_block_by_no, get_hash_by_no. rewrite HH, GBc, Sb0, RM.
+    destruct (rcm_ok c b0 R1 Hne) as (n1 & E1 & B1 & O1 & A1 & _). rewrite E1.
+    destruct (Tail n1 B1 O1 A1) as (r & T). exists r. destruct T as (T1 & T). rewrite T1. auto. }
+  destruct R3 as [(HL & [HH|(nb & Hnb & Hno & HH)])|(HL & HH)].
+  - (* the old tip is loaded: no RecoverChainMapping *)
+    unfold restart, get_latest. rewrite HL. unfold get_block_by_no, get_hash_by_no. rewrite HH, GBc, Hobs, RM.
+    unfold recover_chain_mapping. simpl best. simpl m_best. rewrite N.eqb_refl.
+    destruct (Tail (mkNode c (best n) (root (best n)) [] [] 0 [] []) eq_refl eq_refl R1) as (r & T1 & T).
+    exists r. rewrite T1. auto.
+  - apply (ViaRcm nb (Gstored nb Hnb)) with (L0 := no (best n)); auto.
+    apply (reco_nonmain nb (best n) Hnb); [lia|]. rewrite Hno. exact Hob.
+  - apply (ViaRcm top Htop) with (L0 := no top); auto.
+    intro E. destruct (inv_stored_U apply spent U g n _ _ I Hobs) as (Uo & _).
+    assert (top = best n) by (apply U_inj; auto). rewrite H in Hlt. lia.
+Qed.
+
+
+(** *** closure of [Rec] *)
+Lemma rec_base : Rec (apply_unit (dur n2) (marker_write_unit m)).
+Proof.
+  destruct reco_facts as (Gst & Glt & Gne & Ghd & Glink & Gstored & Eolds & IF & BF & Ff & Hmk).
+  pose proof (i_best _ _ _ _ _ I) as Hob.
+  assert (Rd : forall k, apply_unit (dur n2) (marker_write_unit m) k = if dkey_eqb KMarker k then Some (VMarker m) else dur n2 k).
+  { intros k. unfold apply_unit. rewrite apply_ops_lookup. cbn [marker_write_unit u_ops lookup_ops fst snd].
+    destruct (dkey_eqb KMarker k); reflexivity. }
+  split; [|split].
+  - intros k Hk. rewrite Rd. destruct (dkey_eqb KMarker k) eqn:E; auto.
+    apply dkey_eqb_spec in E. subst k. exfalso.
+    apply (lookup_ops_in_some (all_ops SU) KMarker (Some (VMarker m))); auto.
+    unfold SU, swap_units. rewrite all_ops_app. apply in_or_app. left. unfold all_ops. simpl. left. reflexivity.
+  - rewrite Rd. reflexivity.
+  - left. rewrite !Rd. simpl. rewrite !Ff by (intros; discriminate). split.
+    + pose proof (i_latest _ _ _ _ _ I) as HL. unfold get_latest in HL. destruct (dur n KLatest) as [[]|]; try discriminate. inversion HL; subst. reflexivity.
+    + left. apply (main_height n _ _ I Hob).
+Qed.
+
+Lemma rec_apply_rt c P : Rec c -> (forall o, In o P -> In o (all_ops SU) /\ rt_key (fst o)) -> Rec (apply_ops c P).
+Proof.
+  intros (R1 & R2 & R3) HP.
+  assert (Hnone : forall k, ~ rt_key k -> lookup_ops P k = None).
+  { intros k Hk. apply lookup_ops_none. intros o Ho E. destruct (HP o Ho) as (_ & H). rewrite E in H. contradiction. }
+  split; [|split].
+  - intros k Hk. rewrite apply_ops_lookup. destruct (lookup_ops P k) eqn:E; auto.
+    exfalso. apply lookup_ops_some_in in E. destruct (HP _ E) as (H & _).
+    apply (lookup_ops_in_some _ _ _ H). exact Hk.
+  - rewrite apply_ops_lookup, Hnone by (simpl; auto). exact R2.
+  - rewrite !apply_ops_lookup, !Hnone by (simpl; auto). exact R3.
+Qed.
+
+Lemma rec_apply_heights c j : Rec c -> Rec (apply_ops c (firstn j (u_ops (heights_unit (rev news) top)))).
+Proof.
+  intros (R1 & R2 & R3).
+  destruct reco_facts as (Gst & Glt & Gne & Ghd & Glink & _).
+  set (hops := map hop (rev news)).
+  assert (EU : u_ops (heights_unit (rev news) top) = hops ++ [(KLatest, Some (VNo (no top)))]) by reflexivity.
+  assert (Ftop : exists it, nth_error (rev news) it = Some top).
+  { destruct news as [|c0 news']; [contradiction|]. simpl in Ghd. subst c0.
+    exists (length (rev news')). simpl. rewrite nth_error_app2 by lia. rewrite Nat.sub_diag. reflexivity. }
+  destruct Ftop as (it & Hit).
+  set (P := firstn j (u_ops (heights_unit (rev news) top))).
+  assert (HPin : forall o, In o P -> In o (hops ++ [(KLatest, Some (VNo (no top)))])).
+  { intros o Ho. unfold P in Ho. rewrite EU in Ho. eapply firstn_In_l; eauto. }
+  assert (HPsu : forall o, In o P -> In o (all_ops SU)).
+  { intros o Ho. apply HPin in Ho. unfold SU, swap_units. rewrite all_ops_app. apply in_or_app. right.
+    unfold all_ops. cbn [map concat u_ops heights_unit]. apply in_or_app. left. exact Ho. }
+  assert (Hother : forall k, (forall h, k <> KHeight h) -> k <> KLatest -> lookup_ops P k = None).
+  { intros k H1 H2. apply lookup_ops_none. intros o Ho E. apply HPin in Ho. apply in_app_or in Ho.
+    destruct Ho as [Ho|[<-|[]]].
+    - apply in_map_iff in Ho. destruct Ho as (x & <- & _). simpl in E. eapply H1; eauto.
+    - simpl in E. auto. }
+  assert (Hheight : forall h v, lookup_ops P (KHeight h) = Some v ->
+             exists x, In x (rev news) /\ no x = h /\ v = Some (VHash (hash_field x))).
+  { intros h v E. apply lookup_ops_some_in in E. apply HPin in E. apply in_app_or in E.
+    destruct E as [E|[E|[]]]; [|discriminate].
+    apply in_map_iff in E. destruct E as (x & Ex & Hx). unfold hop in Ex. inversion Ex; subst. eauto. }
+  split; [|split].
+  - intros k Hk. rewrite apply_ops_lookup. destruct (lookup_ops P k) eqn:E; auto.
+    exfalso. apply lookup_ops_some_in in E. apply (lookup_ops_in_some _ _ _ (HPsu _ E)). exact Hk.
+  - rewrite apply_ops_lookup, Hother by (intros; discriminate). exact R2.
+  - (* the tip pointer *)
+    destruct (lookup_ops P KLatest) as [vl|] eqn:EL.
+    + (* the whole bulk has been applied *)
+      right.
+      assert (Hfull : P = hops ++ [(KLatest, Some (VNo (no top)))]).
+      { unfold P. rewrite EU. apply lookup_ops_some_in in EL. unfold P in EL. rewrite EU in EL.
+        destruct (Nat.le_gt_cases (length (hops ++ [(KLatest, Some (VNo (no top)))])) j) as [Hj|Hj].
+        - apply firstn_all2. exact Hj.
+        - exfalso. rewrite app_length in Hj. simpl in Hj.
+          rewrite firstn_app in EL. replace (j - length hops)%nat with 0%nat in EL by lia. simpl in EL. rewrite app_nil_r in EL.
+          apply firstn_In_l in EL. apply in_map_iff in EL. destruct EL as (x & Ex & _). discriminate. }
+      rewrite !apply_ops_lookup. rewrite Hfull, !lookup_ops_app. cbn [lookup_ops fst snd dkey_eqb]. split; [reflexivity|].
+      change hops with (map (fun b : block => (KHeight (no b), Some (VHash (hash_field b)))) (rev news)).
+      rewrite (heights_lookup (rev news) st (no top) Glink), (find_linked _ _ _ _ Glink Hit). reflexivity.
+    + destruct R3 as [(HL & HH)|(HL & HH)].
+      * left. rewrite !apply_ops_lookup, EL. split; [exact HL|].
+        destruct (lookup_ops P (KHeight (no (best n)))) as [v|] eqn:EH; [|exact HH].
+        destruct (Hheight _ _ EH) as (x & Hx & Hno & ->). right. exists x. split; [apply in_rev; exact Hx|]. auto.
+      * right. rewrite !apply_ops_lookup, EL. split; [exact HL|].
+        destruct (lookup_ops P (KHeight (no top))) as [v|] eqn:EH; [|exact HH].
+        destruct (Hheight _ _ EH) as (x & Hx & Hno & ->).
+        destruct (In_nth_error _ _ Hx) as (ix & Hix).
+        assert (ix = it) by (eapply linked_no_inj; eauto). subst ix. rewrite Hit in Hix. inversion Hix; subst. reflexivity.
+Qed.
+
+
+Lemma rec_apply_mw c : Rec c -> Rec (apply_unit c (marker_write_unit m)).
+Proof.
+  intros (R1 & R2 & R3).
+  assert (Rd : forall k, apply_unit c (marker_write_unit m) k = if dkey_eqb KMarker k then Some (VMarker m) else c k).
+  { intros k. unfold apply_unit. rewrite apply_ops_lookup. cbn [marker_write_unit u_ops lookup_ops fst snd].
+    destruct (dkey_eqb KMarker k); reflexivity. }
+  split; [|split].
+  - intros k Hk. rewrite Rd. destruct (dkey_eqb KMarker k) eqn:E; auto.
+    apply dkey_eqb_spec in E. subst k. exfalso.
+    apply (lookup_ops_in_some (all_ops SU) KMarker (Some (VMarker m))); auto.
+    unfold SU, swap_units. rewrite all_ops_app. apply in_or_app. left. unfold all_ops. simpl. left. reflexivity.
+  - rewrite Rd. reflexivity.
+  - rewrite !Rd. simpl. exact R3.
+Qed.
+
+Lemma su_length : length SU = Datatypes.S (Datatypes.S (Datatypes.S (length (swap_mid news olds)))).
+Proof. unfold SU, swap_units. rewrite app_length. simpl. lia. Qed.
+
+(** [Rec] is closed under every proper prefix of the swap units *)
+Lemma rec_prefix_su c k : Rec c -> (k < length SU)%nat -> Rec (replay c (firstn k SU)).
+Proof.
+  intros R Hk. rewrite su_length in Hk.
+  destruct k as [|k']; [exact R|].
+  set (mid := swap_mid news olds) in *.
+  destruct (Nat.le_gt_cases k' (length mid)) as [H1|H1].
+  - rewrite (firstn_swap_units k' H1). fold mid.
+    change (marker_write_unit m :: firstn k' mid) with ([marker_write_unit m] ++ firstn k' mid).
+    rewrite replay_app. simpl replay at 2. rewrite replay_all_ops.
+    apply rec_apply_rt; [apply rec_apply_mw; exact R|].
+    intros o Ho. apply prefix_ops_in in Ho. split.
+    + unfold SU, swap_units. rewrite all_ops_app. apply in_or_app. left.
+      change (marker_write_unit m :: swap_mid news olds) with ([marker_write_unit m] ++ swap_mid news olds).
+      rewrite all_ops_app. apply in_or_app. right. exact Ho.
+    + apply (swap_mid_keys _ _ _ Ho).
+  - assert (k' = Datatypes.S (length mid)) by lia. subst k'.
+    assert (EP : firstn (Datatypes.S (Datatypes.S (length mid))) SU =
+                 (marker_write_unit m :: mid) ++ [heights_unit (rev news) top]).
+    { unfold SU, swap_units. fold mid. rewrite firstn_app.
+      assert (E : (Datatypes.S (Datatypes.S (length mid)) - length (marker_write_unit m :: mid) = 1)%nat) by (cbn [length]; lia).
+      rewrite E. rewrite firstn_all2 by (cbn [length]; lia). reflexivity. }
+    rewrite EP, replay_app. cbn [replay fold_left].
+    assert (R' : Rec (replay c (marker_write_unit m :: mid))).
+    { change (marker_write_unit m :: mid) with ([marker_write_unit m] ++ mid).
+      rewrite replay_app. simpl replay at 2. rewrite replay_all_ops.
+      apply rec_apply_rt; [apply rec_apply_mw; exact R|].
+      intros o Ho. split.
+      - unfold SU, swap_units. rewrite all_ops_app. apply in_or_app. left.
+        change (marker_write_unit m :: swap_mid news olds) with ([marker_write_unit m] ++ swap_mid news olds).
+        rewrite all_ops_app. apply in_or_app. right. exact Ho.
+      - apply (swap_mid_keys _ _ _ Ho). }
+    unfold apply_unit.
+    rewrite <- (firstn_all (u_ops (heights_unit (rev news) top))).
+    apply rec_apply_heights. exact R'.
+Qed.
+
+(** restart on a store that is pointwise the crash-free final store *)
+Lemma restart_final c : (forall k, c k = dur nF k) ->
+  exists r, restart true c = Some (StartOk r) /\ Inv r /\ best r = top /\ (forall k, dur r k = dur nF k) /\
+            has_state_marker (dur r) (root (best r)) = true.
+Proof.
+  intros Hc. destruct reco_facts as (_ & _ & _ & _ & _ & _ & _ & IF & BF & _).
+  assert (F : frame_of U nF c).
+  { split; [intros; apply Hc|]. split.
+    - intros id x Hx. rewrite <- Hx. apply get_block_ext. apply Hc.
+    - split; [intros id x; rewrite Hc; apply (i_univ _ _ _ _ _ IF)|]. split.
+      + intros r0. unfold has_state_marker. rewrite Hc. auto.
+      + intros i0 j0. unfold has_receipts. rewrite Hc. auto. }
+  destruct (restart_frame apply spent U g true nF c IF F) as (r & R1 & R2 & R3 & R4 & R5).
+  exists r. split; [exact R1|]. split; [exact R2|]. split; [congruence|]. split; [|exact R5].
+  intros k. rewrite R4. apply Hc.
+Qed.
+
+Theorem restart_rec_units c : Rec c ->
+  exists r U0, restart true c = Some (StartOk r) /\ Inv r /\ best r = top /\ (forall k, dur r k = dur nF k) /\
+    jlog r = rev SU ++ rev U0 /\
+    (U0 = [] \/ exists u, U0 = [u] /\ u_kind u = UBulk /\ Rec (apply_unit c u)).
+Proof.
+  intros (R1 & R2 & R3).
+  destruct reco_facts as (Gst & Glt & Gne & Ghd & Glink & Gstored & Eolds & IF & BF & Ff & Hmk).
+  assert (KB : forall id, c (KBlock id) = dur n (KBlock id)).
+  { intros id. rewrite R1 by (apply swap_units_lookup_none; simpl; auto). apply Ff; intros; discriminate. }
+  assert (GBc : forall id, get_block c id = get_block (dur n) id) by (intros; apply get_block_ext; auto).
+  pose proof (i_best _ _ _ _ _ I) as Hob. pose proof (inv_main_stored apply spent U g n _ _ I Hob) as Hobs.
+  assert (RM : get_marker c = Some m) by (unfold get_marker; rewrite R2; reflexivity).
+  assert (ViaRcm : forall b0, get_block (dur n) (hash_field b0) = Some b0 -> hash_field b0 <> hash_field (best n) ->
+            forall L0, c KLatest = Some (VNo L0) -> c (KHeight L0) = Some (VHash (hash_field b0)) ->
+            exists r U0, restart true c = Some (StartOk r) /\ Inv r /\ best r = top /\ (forall k, dur r k = dur nF k) /\
+              jlog r = rev SU ++ rev U0 /\
+              (U0 = [] \/ exists u, U0 = [u] /\ u_kind u = UBulk /\ Rec (apply_unit c u))).
+  { intros b0 Sb0 Hne L0 HL HH.
+    unfold restart, get_latest. rewrite HL. unfold get_block_by_no, get_hash_by_no. rewrite HH, GBc, Sb0, RM.
+    destruct (rcm_ok c b0 R1 Hne) as (n1 & E1 & B1 & O1 & A1 & M1 & L1 & H1 & u & J1 & D1 & K1). rewrite E1.
+    destruct (recover_tail_gen n1 B1 O1 A1) as (r & T1 & T2 & T3 & T4 & T5).
+    exists r, [u]. rewrite T1. split; [reflexivity|]. split; [exact T4|]. split; [exact T3|]. split; [exact T2|].
+    split; [rewrite T5, J1; reflexivity|]. right. exists u. split; [reflexivity|]. split; [exact K1|].
+    rewrite <- D1. split; [exact A1|]. split; [rewrite M1; exact R2|]. left. split; [exact L1|]. left. exact H1. }
+  destruct R3 as [(HL & [HH|(nb & Hnb & Hno & HH)])|(HL & HH)].
+  - unfold restart, get_latest. rewrite HL. unfold get_block_by_no, get_hash_by_no. rewrite HH, GBc, Hobs, RM.
+    unfold recover_chain_mapping. simpl best. simpl m_best. rewrite N.eqb_refl.
+    destruct (recover_tail_gen (mkNode c (best n) (root (best n)) [] [] 0 [] []) eq_refl eq_refl R1) as (r & T1 & T2 & T3 & T4 & T5).
+    exists r, []. rewrite T1. split; [reflexivity|]. split; [exact T4|]. split; [exact T3|]. split; [exact T2|].
+    split; [rewrite T5; reflexivity|]. left. reflexivity.
+  - apply (ViaRcm nb (Gstored nb Hnb)) with (L0 := no (best n)); auto.
+    apply (reco_nonmain nb (best n) Hnb); [lia|]. rewrite Hno. exact Hob.
+  - apply (ViaRcm top Htop) with (L0 := no top); auto.
+    intro E. destruct (inv_stored_U apply spent U g n _ _ I Hobs) as (Uo & _).
+    assert (top = best n) by (apply U_inj; auto). rewrite H in Hlt. lia.
+Qed.
+
+Definition restart_units (c : store) : list wunit :=
+  match restart true c with Some (StartOk r) => rev (jlog r) | _ => [] end.
+
+(** Crash DURING the recovery (bulks and transactions atomic): after any prefix of the write units
+    that the recovery itself issues (the RecoverChainMapping bulk, then the redone swap units), a
+    further restart again ends in the crash-free final store: recovery is idempotent. *)
+Theorem crash_during_recovery c k : Rec c ->
+  exists r', restart true (replay c (firstn k (restart_units c))) = Some (StartOk r') /\ Inv r' /\ best r' = top /\
+             (forall key, dur r' key = dur nF key).
+Proof.
+  intros R. destruct (restart_rec_units c R) as (r & U0 & E & _ & _ & _ & J & HU).
+  unfold restart_units. rewrite E, J, rev_app_distr, !rev_involutive.
+  assert (Main : forall c0 k0, Rec c0 ->
+            exists r', restart true (replay c0 (firstn k0 SU)) = Some (StartOk r') /\ Inv r' /\ best r' = top /\
+                       (forall key, dur r' key = dur nF key)).
+  { intros c0 k0 R0. destruct (Nat.le_gt_cases (length SU) k0) as [Hge|Hlt0].
+    - rewrite firstn_all2 by exact Hge.
+      destruct (restart_final (replay c0 SU)) as (r' & A & B & C & D & _).
+      + intros key. unfold nF. rewrite swap_chain_dur. apply replay_agree. destruct R0 as (R01 & _). exact R01.
+      + exists r'. auto.
+    - destruct (restart_rec _ (rec_prefix_su c0 k0 R0 Hlt0)) as (r' & A & B & C & D & _). exists r'. auto. }
+  destruct HU as [->|(u & -> & _ & Ru)].
+  - simpl app. apply Main. exact R.
+  - destruct k as [|k'].
+    + simpl. destruct (restart_rec c R) as (r' & A & B & C & D & _). exists r'. auto.
+    + simpl firstn. simpl replay. apply Main. exact Ru.
+Qed.
+
+
+Lemma rec_ext c c' : (forall k, c k = c' k) -> Rec c -> Rec c'.
+Proof.
+  intros H (R1 & R2 & R3). split; [|split].
+  - intros k Hk. rewrite <- H. apply R1. exact Hk.
+  - rewrite <- H. exact R2.
+  - rewrite <- !H. exact R3.
+Qed.
+
+(** every first crash point after the marker write and before the marker delete is in [Rec] *)
+Lemma rec_first_crash j : (1 <= j)%nat -> (j < length SU)%nat -> Rec (crash j (dur n2) SU).
+Proof.
+  intros H1 H2. unfold crash.
+  apply (rec_ext (replay (apply_unit (dur n2) (marker_write_unit m)) (firstn j SU))).
+  - intros k. destruct j as [|j']; [lia|].
+    unfold SU, swap_units. simpl firstn. simpl replay.
+    apply replay_ext. intros k0. unfold apply_unit. rewrite !apply_ops_lookup.
+    cbn [marker_write_unit u_ops lookup_ops fst snd]. destruct (dkey_eqb KMarker k0); reflexivity.
+  - apply rec_prefix_su; [apply rec_base|exact H2].
+Qed.
+
+(** Two crashes: one during the swap (after the marker), one during the recovery from it. *)
+Theorem crash_twice j k : (1 <= j)%nat -> (j < length SU)%nat ->
+  exists r', restart true (replay (crash j (dur n2) SU) (firstn k (restart_units (crash j (dur n2) SU)))) = Some (StartOk r') /\
+             Inv r' /\ best r' = top /\ (forall key, dur r' key = dur nF key).
+Proof. intros H1 H2. apply crash_during_recovery. apply rec_first_crash; auto. Qed.
+
+(** partial flush: a crash after ANY prefix of the individual operations of deleteOldReceipts /
+    swapTxMapping (in particular inside the bulk that deletes the abandoned tx index entries) ... *)
+Theorem crash_partial_flush_mid j :
+  exists r, restart true (apply_ops (apply_unit (dur n2) (marker_write_unit m)) (firstn j (all_ops (swap_mid news olds)))) = Some (StartOk r) /\
+            Inv r /\ best r = top /\ (forall k, dur r k = dur nF k).
+Proof.
+  destruct (restart_rec (apply_ops (apply_unit (dur n2) (marker_write_unit m)) (firstn j (all_ops (swap_mid news olds)))))
+    as (r & A & B & C & D & _).
+  - apply rec_apply_rt; [apply rec_base|]. intros o Ho. apply firstn_In_l in Ho. split.
+    + unfold SU, swap_units. rewrite all_ops_app. apply in_or_app. left.
+      change (marker_write_unit m :: swap_mid news olds) with ([marker_write_unit m] ++ swap_mid news olds).
+      rewrite all_ops_app. apply in_or_app. right. exact Ho.
+    + apply (swap_mid_keys _ _ _ Ho).
+  - exists r. auto.
+Qed.
+
+(** ... and after any prefix of the operations INSIDE the bulk of swapChainMapping (some heights
+    already point at the new branch, Latest possibly not yet): recoverable because the marker
+    outlives the bulk. *)
+Theorem crash_partial_flush_heights j :
+  exists r, restart true (apply_ops (replay (dur n2) (marker_write_unit m :: swap_mid news olds))
+                            (firstn j (u_ops (heights_unit (rev news) top)))) = Some (StartOk r) /\
+            Inv r /\ best r = top /\ (forall k, dur r k = dur nF k).
+Proof.
+  destruct (restart_rec (apply_ops (replay (dur n2) (marker_write_unit m :: swap_mid news olds))
+                            (firstn j (u_ops (heights_unit (rev news) top))))) as (r & A & B & C & D & _).
+  - apply rec_apply_heights.
+    change (marker_write_unit m :: swap_mid news olds) with ([marker_write_unit m] ++ swap_mid news olds).
+    rewrite replay_app. simpl replay at 2. rewrite replay_all_ops.
+    apply rec_apply_rt; [apply rec_base|]. intros o Ho. split.
+    + unfold SU, swap_units. rewrite all_ops_app. apply in_or_app. left.
+      change (marker_write_unit m :: swap_mid news olds) with ([marker_write_unit m] ++ swap_mid news olds).
+      rewrite all_ops_app. apply in_or_app. right. exact Ho.
+    + apply (swap_mid_keys _ _ _ Ho).
+  - exists r. auto.
 Qed.
 
 (** crash after the height-index bulk of swapChainMapping and before the marker is deleted:
